@@ -126,9 +126,9 @@ func c17judge(s string) (kind, detail, form string) {
 }
 
 func c17run(w *report.W) {
-	maxTok := 4
+	maxTok := 5
 	if w.Thorough() {
-		maxTok = 5
+		maxTok = 6
 	}
 	n := len(c17tokens)
 	idx := make([]int, 0, maxTok)
@@ -170,7 +170,7 @@ func c17run(w *report.W) {
 func init() {
 	register(&report.Check{
 		ID: "C17",
-		Rule: "every concatenation of <=4 (quick) / <=5 (thorough) tokens over a 24-token alphabet (names, /, #, refs incl. a slash ref, hosts, schemes, " +
+		Rule: "every concatenation of <=5 (quick) / <=6 (thorough) tokens over a 24-token alphabet (names, /, #, refs incl. a slash ref, hosts, schemes, " +
 			"scp prefix, POSIX/Windows path prefixes, the plugin suffix); a hand-written classifier decides the documented form (bare, org/name, 3+ segments, " +
 			"path, scheme, scp) or 'outside' (only no-panic asked); FullSource, FullSource∘FullSource and the marshalled key are compared with the reference. " +
 			"Distinct = distinct source string; non-trivial = inside a documented form.",
